@@ -169,6 +169,9 @@ func printStats(st *sym.ExploreStats, verbose bool) {
 	for _, m := range st.SolverErrs {
 		fmt.Println("  SOLVER-ERR:", m)
 	}
+	for k := range st.UninitReads {
+		fmt.Printf("  UNINIT-GLOBAL-TOUCHED %s\n", k)
+	}
 	for k, v := range st.InitSkips {
 		fmt.Printf("  INIT-PARTIAL %s: %s\n", k, v)
 	}
